@@ -119,12 +119,12 @@ Section Rider.
           destruct fr as [o'|e|e]; [| | contradiction].
           -- destruct (hupd_qt s1 o' (upd_req s1 q) (fun _ => eq_refl) K1) as [Q2 K2].
              do 3 eexists. split; [reflexivity|]. split; [|split].
-             ++ eapply G_qt; [apply inv_hupd; [exact I1 | reflexivity] | exact K2 | eapply qt_trans; eassumption | exact Hg].
-             ++ apply nc_qt. eapply qt_trans; eassumption.
+             ++ eapply G_qt; [apply inv_hupd; [exact I1 | reflexivity] | exact K2 | exact (qt_trans _ _ _ Q1 Q2) | exact Hg].
+             ++ apply nc_qt. exact (qt_trans _ _ _ Q1 Q2).
              ++ intros o2 E2. injection E2 as <-. eapply hg_qt; [exact Q2 | apply Hh1; reflexivity].
           -- do 3 eexists. split; [reflexivity|]. split; [eapply G_qt; eassumption|].
              split; [apply nc_qt; exact Q1 | intros o2 E2; discriminate].
-      + assert (Hh : hg s o) by (exists ob; split; [exact Ho | split; [exact Hr | rewrite Hs, Hr; reflexivity]]).
+      + assert (Hh : hg s o) by (exists ob; split; [exact Ho | split; [exact Hr | exact Hs]]).
         destruct (c_idexpiry c <=? since (r_created (o_rec ob)) (now s))%Z eqn:Ha.
         * rewrite (sf_rotate _ _ _ _ _ _ _ F Ho Hv Hr Ha).
           destruct (regen_G _ _ _ _ Hg Ho Hh) as (G1 & N1 & H1). pose proof G1 as (I1 & K1 & _).
